@@ -57,19 +57,24 @@ inductive Site
   | vtxPlayerFreq       -- `sample_rate / player_frequency` with 0 (Player::new)
   | vtxLha              -- the LH5 decoder (external crate `delharc`, a parameter here) panics
   | snaRev              -- no failure site, a behaviour switch of the repair: a 48K snapshot is refused by the 128K machine too
+  | snaRestore          -- behaviour switch (repo 7c58b25): the 0x7FFD latch of a snapshot is restored through
+                        -- `restore_7ffd`, which unlocks the 128K machine first
+  | szxMachine          -- behaviour switch (repo fce5ee2): an SZX file for the other machine model is refused
   deriving DecidableEq, Repr, Inhabited
 
 def Site.all : List Site :=
   [.snaIm, .snaPage, .szxIdUtf8, .szxAlloc, .szxCrtrShort, .szxCrtrUtf8, .szxZ80rShort, .szxZ80rIm,
    .szxSpcrShort, .szxSpcrBorder, .szxAyShort, .szxKeybShort, .szxAmxmShort, .szxRampShort,
    .szxRampPage, .szxRampData, .szxRampInflated, .tapArith, .tapIndex, .tapPilot, .vtxSpin,
-   .vtxScan, .vtxArith, .vtxStrings, .vtxAlloc, .vtxPlayerFreq, .vtxLha, .snaRev]
+   .vtxScan, .vtxArith, .vtxStrings, .vtxAlloc, .vtxPlayerFreq, .vtxLha, .snaRev, .snaRestore, .szxMachine]
 
 /-- Repair flags, one per site: `true` = the maintainer's check is present (the site answers with
 an `Err` instead). `Fix.none` is the code as it stands, `Fix.all` the fully repaired code. -/
 abbrev Fix := Site → Bool
 def Fix.none : Fix := fun _ => false
 def Fix.all : Fix := fun _ => true
+/-- /repo as of e55b22a: the machine-model checks and `restore_7ffd` are in, the C15 sites are not -/
+def Fix.head : Fix := fun s => s = .snaPage || s = .snaRev || s = .snaRestore || s = .szxMachine
 
 inductive Outcome
   | ok
